@@ -117,6 +117,11 @@ impl Reporter {
     pub fn cover(&mut self, k: &str, v: Value) {
         self.coverage.insert(k.to_string(), v);
     }
+    /// add to a numeric coverage entry (creating it at 0)
+    pub fn cover_add(&mut self, k: &str, n: u64) {
+        let cur = self.coverage.get(k).and_then(|v| v.as_u64()).unwrap_or(0);
+        self.coverage.insert(k.to_string(), Value::from(cur + n));
+    }
     pub fn elapsed(&self) -> f64 {
         self.start.elapsed().as_secs_f64()
     }
